@@ -23,6 +23,7 @@ func init() {
 
 func runC18(c *Ctx) {
 	c.checkClosedFormEigens()
+	c.checkF84EigenSystem()
 	c.checkPijAnalytic()
 	c.checkRateMatrixLiterals()
 	c.checkProteinTables()
@@ -1663,4 +1664,122 @@ func (c *Ctx) checkPijAnalytic() {
 			fmt.Sprintf("%d returned expression(s) are not an entry of R·exp(Λl)·L of the model's own eigen system and %d distinct entries are never returned: the analytical and the eigen-decomposition transition probabilities disagree", stray, missing))
 	}
 	L.Floor("pij-analytic", 1, "JC and K2P")
+}
+
+// polySubst replaces every occurrence of the symbol v in p by the polynomial q.
+func polySubst(p poly, v string, q poly) poly {
+	out := poly{}
+	for mono, coef := range p {
+		k := 0
+		var rest []string
+		if mono != "" {
+			for _, f := range strings.Split(mono, "*") {
+				if f == v {
+					k++
+				} else {
+					rest = append(rest, f)
+				}
+			}
+		}
+		term := poly{strings.Join(rest, "*"): new(big.Rat).Set(coef)}
+		for i := 0; i < k; i++ {
+			term = term.mul(q)
+		}
+		out = out.add(term, 1)
+	}
+	return out
+}
+
+func (a frac) subst(v string, q poly) frac {
+	return frac{polySubst(a.num, v, q), polySubst(a.den, v, q)}
+}
+
+// checkF84EigenSystem: the eigen system of F84 is given symbolically in the base frequencies and
+// kappa. With πT = 1 − πA − πC − πG substituted, the literals satisfy, as identities of rational
+// functions: R·L = I (so P(0) = I); Q = R·diag(λ)·L has zero row sums (rows of P(t) sum to 1);
+// π_i·Q_ij = π_j·Q_ji (detailed balance) and −Σ π_i·Q_ii = 1 (one expected substitution per unit
+// time) — the model-independent clauses of C18, for every admissible parameter value at once.
+func (c *Ctx) checkF84EigenSystem() {
+	L := c.L
+	fd, pk := c.methodDecl("models/dna", "F84Model", "Eigens")
+	label := "models/dna.(*F84Model).Eigens"
+	if fd == nil {
+		return
+	}
+	info := pk.TypesInfo
+	ratLocals = singleAssignLocals(info, fd)
+	Ld := denseLiteralAssigned(info, fd, resultNames(fd, 1, "leftvectors")...)
+	Rd := denseLiteralAssigned(info, fd, resultNames(fd, 2, "rightvectors")...)
+	vals := sliceLiteralAssigned(fd, resultNames(fd, 0, "val")...)
+	if Ld == nil || Rd == nil || len(Ld.elts) != 16 || len(Rd.elts) != 16 || len(vals) != 4 {
+		L.Unknown("eigen-literal", label, "symbolic eigen system", c.P.Pos(fd.Pos()), "the eigen system is not given as 4x4 literals")
+		return
+	}
+	piT := polyConst(big.NewRat(1, 1)).add(polyVar("piA"), -1).add(polyVar("piC"), -1).add(polyVar("piG"), -1)
+	fc := &ffCtx{leaf: func(name string) (poly, bool) {
+		if name == "piT" {
+			return piT, true
+		}
+		return polyVar(name), true
+	}}
+	read := func(e ast.Expr) (ffrac, bool) { return fc.parse(info, e, 0) }
+	var Lm, Rm [4][4]ffrac
+	var lam [4]ffrac
+	okAll := true
+	for i := 0; i < 4; i++ {
+		for j := 0; j < 4; j++ {
+			var ok1, ok2 bool
+			Lm[i][j], ok1 = read(Ld.elts[i*4+j])
+			Rm[i][j], ok2 = read(Rd.elts[i*4+j])
+			okAll = okAll && ok1 && ok2
+		}
+		var ok bool
+		lam[i], ok = read(vals[i])
+		okAll = okAll && ok
+	}
+	if !okAll {
+		L.Unknown("eigen-literal", label, "symbolic eigen system", c.P.Pos(fd.Pos()), "an entry is not an arithmetic expression of the frequencies and kappa")
+		return
+	}
+	zero, one := fc.constant(big.NewRat(0, 1)), fc.constant(big.NewRat(1, 1))
+	pi := [4]ffrac{fc.fromPoly(polyVar("piA")), fc.fromPoly(polyVar("piC")), fc.fromPoly(polyVar("piG")), fc.fromPoly(piT)}
+	var Q [4][4]ffrac
+	okInv, whyInv := true, ""
+	for i := 0; i < 4; i++ {
+		for j := 0; j < 4; j++ {
+			id, q := zero, zero
+			for k := 0; k < 4; k++ {
+				id = fc.add(id, fc.mul(Rm[i][k], Lm[k][j]), 1)
+				q = fc.add(q, fc.mul(fc.mul(Rm[i][k], lam[k]), Lm[k][j]), 1)
+			}
+			Q[i][j] = q
+			want := zero
+			if i == j {
+				want = one
+			}
+			if !fc.eq(id, want) && okInv {
+				okInv, whyInv = false, fmt.Sprintf("(R·L)[%d][%d]", i, j)
+			}
+		}
+	}
+	L.Check(okInv, "eigen-literal", label, "R·L = I (symbolic)", c.P.Pos(Rd.pos), "16 identities of rational functions in πA, πC, πG, κ (πT = 1 − πA − πC − πG)", "the symbolic eigenvector matrices are not inverse to each other: "+whyInv+" is not the identity entry (P(0) would not be the identity)")
+	okRows, okDB := true, true
+	rate := zero
+	for i := 0; i < 4; i++ {
+		sum := zero
+		for j := 0; j < 4; j++ {
+			sum = fc.add(sum, Q[i][j], 1)
+			if i < j && !fc.eq(fc.mul(pi[i], Q[i][j]), fc.mul(pi[j], Q[j][i])) {
+				okDB = false
+			}
+		}
+		if !fc.eq(sum, zero) {
+			okRows = false
+		}
+		rate = fc.add(rate, fc.mul(pi[i], Q[i][i]), -1)
+	}
+	okRate := fc.eq(rate, one)
+	L.Check(okRows && okDB && okRate, "eigen-literal", label, "R·diag(λ)·L is a reversible generator of rate 1 (symbolic)", c.P.Pos(fd.Pos()),
+		"zero row sums, π_i·Q_ij = π_j·Q_ji for the six pairs, −Σ π_i·Q_ii = 1, as identities in πA, πC, πG, κ",
+		fmt.Sprintf("the rate matrix reconstructed from the eigen system fails a model-independent clause (zero row sums: %v, detailed balance: %v, mean rate 1: %v)", okRows, okDB, okRate))
 }
